@@ -412,8 +412,16 @@ def scenario(sseed, kind, mode, res, crash_at=None, second=None, maxlen=60):
                         tags["end-" + oc] += 1
                         lines.append(dict(suite="oracle", op="end", id=int(t.trial_id), status=st_req))
                         aborted = False
+                        t_arg = t
+                        if R.random() < 0.5:
+                            # what a remote worker (or any caller that rebuilt the trial from its state) hands back: a copy,
+                            # not the oracle's own object - every decision must be taken on, and recorded in, the stored trial
+                            from keras_tuner.engine import trial as trial_module
+                            t_arg = trial_module.Trial(hyperparameters=t.hyperparameters.copy(), trial_id=t.trial_id, status=st_req)
+                            t_arg.message = t.message
+                            tags["end-with-copy"] += 1
                         try:
-                            quiet(o.end_trial, t)
+                            quiet(o.end_trial, t_arg)
                             res_s = "ok"
                         except RuntimeError as e:
                             if "consecutive" not in str(e):
